@@ -21,6 +21,9 @@ clause → theorem
   loop order, check-and-park in one critical section) ............. `C12.source_facts`
 * every branch that makes a wait condition true notifies
   (ack, cancel, advance, resume; for both waits; ALL states) ...... `C12.wake_obligation`
+* the same for ANY number of waiters of mixed kinds (needs the
+  extra fact "every notification is notify_all") .................. `C12.source_facts_n`,
+  `C12.multi_parked_implies_not_pred`, `C12.multi_enabling_op_wakes_all`, `C12.multi_mutex_exclusive`
 * a parked waiter is woken by the very call that makes its
   condition true .................................................. `C12.enabling_op_wakes`
 * never parked while the condition holds, every interleaving ..... `C12.parked_implies_not_pred`
@@ -254,6 +257,67 @@ example : (run cfg (.credit 4) (St.init ⟨8, 8, 0, 0, none, none, []⟩)
     [.lock, .check false, .wake, .lock, .check true]).pc = .returned .timeout := by decide
 example : (run cfg .reconnect (St.init ⟨8, 8, 0, 0, none, none, []⟩)
     [.lock, .check false, .op (.ack 0 2), .wake, .lock, .check true]).pc = .returned .timeout := by decide
+
+/-! ### Any number of waiters (the source says "one producer per transfer"; the protocol does not need it)
+
+`MSt`/`mstep`: a waiter for every natural number, kinds mixed arbitrarily (`kinds i` = credit with any
+chunk length, or reconnect), one mutex (`holder`), `notify_all` wakes every parked waiter.  Reconnect
+waiters compete for the staged resume (`take()`): whoever looks first gets it, which can only turn another
+waiter's condition from true to false, never the other way (`runBody_std_other`). -/
+
+/-- Additional fact for n waiters: every notification in the source is `notify_all`. -/
+theorem source_facts_n : cfg.GoodN := by decide
+
+/-- **No lost wake-up for any number of waiters**, every interleaving: no waiter is parked while its own
+condition holds. -/
+theorem multi_parked_implies_not_pred (kinds : Nat → Kind) (s0 : Sh) (evs : List MEv) (i : Nat) :
+    (mrun cfg kinds (MSt.init s0) evs).pc i = .parked →
+    pred (kinds i) (mrun cfg kinds (MSt.init s0) evs).sh = false :=
+  (MNoLost.run source_facts_n evs (MNoLost.init kinds s0)).parked i
+
+/-- Mutual exclusion: at most one waiter is inside its loop body. -/
+theorem multi_mutex_exclusive (kinds : Nat → Kind) (s0 : Sh) (evs : List MEv) (i j : Nat)
+    (hi : (mrun cfg kinds (MSt.init s0) evs).pc i = .checking)
+    (hj : (mrun cfg kinds (MSt.init s0) evs).pc j = .checking) : i = j := by
+  have h := MNoLost.run source_facts_n evs (MNoLost.init kinds s0)
+  have h1 := (h.mutex i).mp hi
+  have h2 := (h.mutex j).mp hj
+  rw [h1] at h2
+  exact Option.some.inj h2
+
+/-- One call wakes **every** parked waiter whose condition it makes true (whatever `pick` is). -/
+theorem multi_enabling_op_wakes_all (kinds : Nat → Kind) (s0 : Sh) (pre : List MEv) (o : Op) (pick i : Nat)
+    (hfree : (mrun cfg kinds (MSt.init s0) pre).holder = none)
+    (hpk : (mrun cfg kinds (MSt.init s0) pre).pc i = .parked)
+    (h1 : pred (kinds i) (applyOp cfg.tbl o (mrun cfg kinds (MSt.init s0) pre).sh).1 = true) :
+    (mstep cfg kinds (mrun cfg kinds (MSt.init s0) pre) (.op o pick)).pc i = .woken := by
+  have hinv := MNoLost.run source_facts_n pre (MNoLost.init kinds s0)
+  generalize mrun cfg kinds (MSt.init s0) pre = st at *
+  have hn := wake_obligation (kinds i) o st.sh (hinv.parked i hpk) h1
+  have hall : cfg.notifyAll = true := source_facts_n.all
+  simp [mstep, hfree, hn, hall, hpk]
+
+-- non-vacuity: a credit waiter (chunk 4) and a reconnect waiter park; one cancel wakes both
+example :
+    let kinds : Nat → Kind := fun i => if i = 0 then .credit 4 else .reconnect
+    let st := mrun cfg kinds (MSt.init ⟨8, 8, 0, 0, none, none, []⟩)
+      [.lock 0, .check 0 false, .lock 1, .check 1 false]
+    st.pc 0 = .parked ∧ st.pc 1 = .parked ∧ st.holder = none ∧
+    (mstep cfg kinds st (.op (.cancel 7) 0)).pc 0 = .woken ∧
+    (mstep cfg kinds st (.op (.cancel 7) 0)).pc 1 = .woken := by decide
+
+/-- With `notify_one` the n-waiter invariant is false: two credit waiters parked, a cancel wakes the one
+the environment picks (a legitimate choice: waiter 0 is parked), the other sleeps on although cancelled.
+With one waiter (`parked_implies_not_pred`) the two calls cannot be told apart. -/
+def cfgNotifyOne : Cfg := { cfg with notifyAll := false }
+
+example : ¬ cfgNotifyOne.GoodN := by decide
+example : cfgNotifyOne.Good := by decide
+example :
+    let kinds : Nat → Kind := fun _ => .credit 4
+    let st := mrun cfgNotifyOne kinds (MSt.init ⟨8, 8, 0, 0, none, none, []⟩)
+      [.lock 0, .check 0 false, .lock 1, .check 1 false, .op (.cancel 7) 0]
+    st.pc 0 = .woken ∧ st.pc 1 = .parked ∧ pred (kinds 1) st.sh = true := by decide
 
 /-! ### Why the facts matter: the same model with one `notify_all()` removed loses a wake-up -/
 
